@@ -53,7 +53,8 @@ ASSUMPTIONS = [
     'most pending + dispatched + 1',
 ]
 
-FAULTS = ['raise', 'quit', 'switch', 'disable', 'dispatch', 'addh', 'rmh']
+FAULTS = ['raise', 'quit', 'switch', 'disable', 'dispatch', 'addh', 'rmh',
+          'disable_dispatch']
 FIXED_HANDLERS = [['a'], ['a', 'b'], ['b']]
 
 
@@ -74,6 +75,7 @@ def gen_cases(tier, seed):
                                    'events': list(events),
                                    'faults': [[0, pos, kind]],
                                    'cycles': cycles, 'world': world,
+                                   'direct': cycles == 2,
                                    'extra': [['b', 'a']] * cycles}
     if tier == 'quick':
         n = 600
@@ -95,7 +97,8 @@ def gen_cases(tier, seed):
                            rng.choice(FAULTS)])
         yield {'handlers': handlers, 'spare': sorted(rng.sample(names, 2)),
                'events': events, 'faults': faults, 'cycles': cycles,
-               'world': rng.random() < 0.4, 'extra': extra}
+               'world': rng.random() < 0.4, 'extra': extra,
+               'direct': rng.random() < 0.5}
 
 
 _budget = None
@@ -161,7 +164,11 @@ def run_case(case):
 
     def new_token(name):
         tok = len(tokens)
-        tokens.append((tok, name, assignment[0]))
+        # third field: None when the event was queued (dispatched while
+        # disabled), else the assignment during which it was dispatched
+        tokens.append((tok, name, None if not d.dispatch_enabled
+                       else (assignment[0] if assignment[0] is not None
+                             else 'immediate')))
         return tok
 
     def inject(kind, token):
@@ -180,6 +187,13 @@ def run_case(case):
             raise raised_obj[0]
         if kind == 'disable':
             d.dispatch_enabled = False
+        elif kind == 'disable_dispatch':
+            # the switch() pattern: disable, then dispatch (queued behind
+            # everything that is still pending)
+            d.dispatch_enabled = False
+            dispatched_from_callbacks[0] += 1
+            name = case['events'][-1] if case['events'][-1] != 'z' else 'a'
+            d.dispatch(name, new_token(name))
         elif kind == 'dispatch':
             dispatched_from_callbacks[0] += 1
             name = case['events'][0] if case['events'][0] != 'z' else 'a'
@@ -264,6 +278,13 @@ def run_case(case):
                     'dispatching was disabled', [], log[:3])
         index = 0
         out = enable(index)
+        if out == 'raised' and case.get('direct') and not res.divs:
+            # enabling again WITHOUT disabling first (SimpleLoop.switch does
+            # exactly this after catching SwitchWorld): the remainder must
+            # come out now
+            index += 1
+            res.stats['direct_reenable_after_raise'] += 1
+            out = enable(index)
         for c in range(case['cycles']):
             if res.divs:
                 break
